@@ -3,3 +3,5 @@
 import TssVerif.Core.Ops
 import TssVerif.Props.C16
 import TssVerif.Props.C14
+import TssVerif.Props.C15
+import TssVerif.Props.C17
